@@ -57,7 +57,7 @@ PROPS = {
                                           "C07_decode_rejects"), gens=["C07"],
                 rule="all strands up to a length bound x check lengths x all single edits, plus long random strands "
                      "and check lengths up to 200; non-trivial = length >= 2 with at least one ascent"),
-    "C08": dict(level="proof", theorems=T("C08"), gens=["C08"],
+    "C08": dict(level="proof", theorems=T("C08", "C08_single", "C08_single_subst", "C08_multi", "C08_single_subst_only", "C08_single_ins", "C08_single_del") + T("C09", "C09_clean"), gens=["C08"],
                 rule="generated graphs x walks x (all single interior edits | spaced multi-edit sets) x check x indel; "
                      "non-trivial = at least one detection"),
     "C09": dict(level="proof", theorems=T("C09", "C09_clean", "C09_sorted_nodup", "C09_check"), gens=["C09"],
@@ -97,7 +97,8 @@ PROPS = {
                                           "C16_fuel"), gens=["C16"],
                 rule="all bit strings / DNA strings up to a bound, long random ones (64-bit boundary included), numbers "
                      "below the capacity of the width; non-trivial = non-zero value"),
-    "C17": dict(level="proof", theorems=T("C17"), gens=["C17"],
+    "C17": dict(level="proof", theorems=T("C17", "C17_step_bounds", "C17_le_four", "C17_arcless", "C17_regular", "C17_certificate_upper", "C17_certificate_lower"),
+                not_proved=["the 1e-4 accuracy of the floating-point power iteration under the spectral-gap precondition (needs Perron-Frobenius convergence rates and an IEEE-754 error analysis): TESTED against the Collatz-Wielandt enclosure whose soundness is C17_certificate_*, and the float iteration is compared step by step with the exact-rational model"], gens=["C17"],
                 rule="graphs meeting the structural precondition x modes; non-trivial = non-integer spectral radius"),
     "C18": dict(level="proof", theorems=T("C18", "C18_shape", "C18_argsort_perm", "C18_bijection", "C18_digit_is_rank",
                                           "C18_distinct_none", "C18_distinct_perm", "C18_finite_table"), gens=["C18"],
